@@ -96,6 +96,12 @@ def extract(o, path="", out=None):
         for a in ("left_vertices", "center_vertices", "right_vertices"):
             for i, v in enumerate(getattr(o, a)):
                 out.append(("%s.%s[%d]" % (path, a, i), "point", _pt(v)))
+        # the lanelet's polygon (the region the lanelet covers: "polygon areas", look-ups) is moved with the boundaries
+        pg = getattr(o, "polygon", None)
+        if pg is not None and np.asarray(o.left_vertices).shape[1] == 2:
+            for i, v in enumerate(np.asarray(pg.vertices)[:-1] if np.allclose(pg.vertices[0], pg.vertices[-1]) else
+                                  np.asarray(pg.vertices)):
+                out.append(("%s.polygon.vertices[%d]" % (path, i), "point", _pt(v)))
         extract(o.stop_line, path + ".stop_line", out)
     elif n in ("TrafficSign", "TrafficLight"):
         if o.position is not None:
